@@ -303,6 +303,12 @@ func classifyMapRange(info *types.Info, fd *ast.FuncDecl, rs *ast.RangeStmt) (bo
 			if breaksAfterIndependentAppend(info, rs, mentions) {
 				continue
 			}
+			// a work list: a local slice that is only measured, indexed, re-sliced
+			// and appended to, never returned, stored or handed to a call — the
+			// order of its elements decides the order of the visit, not the result
+			if localWorkList(info, fd, sl) {
+				continue
+			}
 			return false, "appends to " + sl + " in map iteration order and never sorts it"
 		}
 	}
@@ -1104,4 +1110,68 @@ func reachableFromEntry(info *types.Info, tpkg *types.Package, decls map[*types.
 		}
 	}
 	return false
+}
+
+
+// localWorkList: the slice named sl is a local variable of fd whose every use
+// is len(sl), sl[i], sl[a:b], sl = append(sl, …) or sl = sl[…].
+func localWorkList(info *types.Info, fd *ast.FuncDecl, sl string) bool {
+	var obj types.Object
+	ast.Inspect(fd.Body, func(n ast.Node) bool {
+		if id, ok := n.(*ast.Ident); ok && id.Name == sl && obj == nil {
+			if o := info.ObjectOf(id); o != nil {
+				if _, isVar := o.(*types.Var); isVar && fd.Body.Pos() <= o.Pos() && o.Pos() < fd.Body.End() {
+					obj = o
+				}
+			}
+		}
+		return true
+	})
+	if obj == nil {
+		return false
+	}
+	ok := true
+	var stack []ast.Node
+	ast.Inspect(fd.Body, func(n ast.Node) bool {
+		if n == nil {
+			stack = stack[:len(stack)-1]
+			return true
+		}
+		stack = append(stack, n)
+		id, isId := n.(*ast.Ident)
+		if !isId || info.ObjectOf(id) != obj || len(stack) < 2 {
+			return true
+		}
+		switch par := stack[len(stack)-2].(type) {
+		case *ast.IndexExpr:
+			if par.X != ast.Expr(id) {
+				ok = false
+			}
+		case *ast.SliceExpr:
+			if par.X != ast.Expr(id) {
+				ok = false
+			}
+		case *ast.CallExpr:
+			fn := wire.Canon(par.Fun)
+			if !(fn == "len" || fn == "cap" || (fn == "append" && len(par.Args) > 0 && par.Args[0] == ast.Expr(id))) {
+				ok = false
+			}
+		case *ast.AssignStmt:
+			isLhs := false
+			for _, l := range par.Lhs {
+				if l == ast.Expr(id) {
+					isLhs = true
+				}
+			}
+			if !isLhs {
+				ok = false
+			}
+		case *ast.ValueSpec, *ast.BinaryExpr:
+			// declaration; comparison of len() is a CallExpr parent, a bare comparison is not expected
+		default:
+			ok = false
+		}
+		return true
+	})
+	return ok
 }
